@@ -110,7 +110,10 @@ class CreateHeader:
         lines = reuse_info.copyright_lines | ext.copyright_lines
         # C09: the new header declares everything the old one declared and everything requested (notices, expressions,
         # contributors); with --merge-copyrights the notices go through the merge function
-        want_c = reuse_info.copyright_lines if fresh else (merged(lines) if merge_copyrights else lines)
+        # (--merge-copyrights applies to the very first header as well: each holder gets a single line from the start, and a
+        # second identical run finds nothing left to merge - C10)
+        all_lines = reuse_info.copyright_lines if fresh else lines
+        want_c = merged(all_lines) if merge_copyrights else all_lines
         want_l = reuse_info.spdx_expressions if fresh else ext.spdx_expressions | reuse_info.spdx_expressions
         want_k = reuse_info.contributor_lines if fresh else ext.contributor_lines | reuse_info.contributor_lines
         return (result == header_text(want_c, want_k, want_l, t, template_is_commented, st, force_multi)
